@@ -296,3 +296,129 @@ def passthrough_task(qn, nargs_builder, loop_ordinal=0, name=None, nmin=1):
 passthrough_task(H + 'itersetheader', lambda ctx: [sym_seq(ctx, 'header', 'tuple')])
 passthrough_task(H + 'iterextendheader', lambda ctx: [sym_seq(ctx, 'fields', 'tuple')])
 passthrough_task(H + 'iterpushheader', lambda ctx: [sym_seq(ctx, 'header', 'tuple')], nmin=0)
+
+
+# ------------------------------------------------------------------------------------------------ cutout
+@vc('C12.itercutout', functions=[B + 'itercutout', UB + 'rowgetter'], props=['C12', 'C03', 'C20', 'C02'],
+    assumptions=['contract of asindices; T6: [i for i in range(n) if i not in X] is the ascending list of the positions not in X (exact model)',
+                 'stateless-body rule (engine meta-theorem)'])
+def itercutout(h):
+    def body(ctx):
+        def delta(ls, x, dout):
+            indices = ls['indices']
+            row = view_seq(x)
+            o = out_row(dout, 0)
+            q = smt.fresh_int('q')
+            ctx.oblige('itercutout: exactly one output row per input row, one cell per kept field', z3.And(dout.len == 1, o.len == indices.len))
+            ctx.oblige('itercutout: cell j is the row\'s cell at the j-th kept position, or `missing` if the row is too short',
+                       z3.ForAll([q], z3.Implies(z3.And(0 <= q, q < indices.len),
+                                                 z3.Select(o.arr, q) == z3.If(idx(indices, q) < row.len, z3.Select(row.arr, idx(indices, q)), as_v(ls['missing'])))))
+        it = h.interp(ctx, loops={(B + 'itercutout', 0): LoopSpec(delta=delta, label='data rows')}, summaries=lib_base.SUMMARIES)
+        S = sym_table(ctx, 'S', nmin=1)
+        spec = sym_seq(ctx, 'spec', 'tuple')
+        ctx.assume(spec.len >= 1)
+        res = run_generator(it, closure_of(it, B + 'itercutout'), [S, spec, sym_cell('missing')])
+        if res.exc is not None:
+            inloop = getattr(ctx, 'in_iteration', None)
+            ctx.oblige('itercutout: no exception escapes while rows are processed; only FieldSelectionError before the header',
+                       z3.BoolVal(inloop is None and res.exc.kind == 'FieldSelectionError'), res.exc.origin or '')
+            return
+        pre = ctx.pre_loop_out
+        indices, out_ix = res.env.lookup('indices'), res.env.lookup('indicesout')
+        hdr = src_row(S, 0)
+        o = out_row(pre, 0)
+        q, i, p = smt.fresh_int('q'), smt.fresh_int('i'), smt.fresh_int('p')
+        cut = lambda ii: z3.Exists([p], z3.And(0 <= p, p < out_ix.len, idx(out_ix, p) == ii))
+        ctx.oblige('itercutout: the kept positions are exactly the header positions that were not selected, in their original order',
+                   z3.And(z3.ForAll([q], z3.Implies(z3.And(0 <= q, q < indices.len), z3.And(0 <= idx(indices, q), idx(indices, q) < hdr.len, z3.Not(cut(idx(indices, q)))))),
+                          z3.ForAll([q], z3.Implies(z3.And(0 <= q, q + 1 < indices.len), idx(indices, q) < idx(indices, q + 1))),
+                          z3.ForAll([i], z3.Implies(z3.And(0 <= i, i < hdr.len, z3.Not(cut(i))), z3.Exists([q], z3.And(0 <= q, q < indices.len, idx(indices, q) == i))))))
+        ctx.oblige('itercutout: the header is emitted first, once: the kept fields',
+                   z3.And(pre.len == 1, o.len == indices.len, res.out.len == 0,
+                          z3.ForAll([q], z3.Implies(z3.And(0 <= q, q < indices.len), z3.Select(o.arr, q) == z3.Select(hdr.arr, idx(indices, q))))))
+    h.explore(body)
+
+
+# ------------------------------------------------------------------------------------------------ values
+@vc('C12.itervalues', functions=[UB + 'itervalues'], props=['C12', 'C03', 'C02', 'C20'],
+    assumptions=['contract of asindices', 'stateless-body rule (engine meta-theorem)'])
+def itervalues(h):
+    for nf in ('one', 'many'):
+        def body(ctx, nf=nf):
+            def delta(ls, x, dout):
+                indices = ls['indices']
+                row = view_seq(x)
+                missing = ls['missing']
+                if nf == 'one':
+                    i0 = idx(indices, 0)
+                    ctx.oblige('itervalues(one field): exactly one value per row: the cell, or `missing` for a short row',
+                               z3.And(dout.len == 1, z3.Select(dout.arr, 0) == z3.If(i0 < row.len, z3.Select(row.arr, i0), as_v(missing))))
+                else:
+                    o = out_row(dout, 0)
+                    q = smt.fresh_int('q')
+                    ctx.oblige('itervalues(several fields): exactly one tuple per row: the selected cells in the order asked, `missing` where the row is too short',
+                               z3.And(dout.len == 1, o.len == indices.len,
+                                      z3.ForAll([q], z3.Implies(z3.And(0 <= q, q < indices.len),
+                                                                z3.Select(o.arr, q) == z3.If(idx(indices, q) < row.len, z3.Select(row.arr, idx(indices, q)), as_v(missing))))))
+            def inner_inv(ls):
+                value, indices, row = ls['value'], ls['indices'], view_seq(ls['row'])
+                q = smt.fresh_int('q')
+                return z3.And(value.len == ls.k.t,
+                              z3.ForAll([q], z3.Implies(z3.And(0 <= q, q < value.len),
+                                                        z3.Select(value.arr, q) == z3.If(idx(indices, q) < row.len, z3.Select(row.arr, idx(indices, q)), as_v(ls['missing'])))))
+            it = h.interp(ctx, loops={(UB + 'itervalues', 0): LoopSpec(delta=delta, label='data rows'),
+                                      (UB + 'itervalues', 1): LoopSpec(invariant=inner_inv, label='one cell at a time')}, summaries=lib_base.SUMMARIES)
+            S = sym_table(ctx, 'S', nmin=1)
+            field = sym_seq(ctx, 'field', 'tuple')
+            ctx.assume(field.len == 1 if nf == 'one' else field.len >= 2)
+            res = run_generator(it, closure_of(it, UB + 'itervalues'), [S, field], {'missing': sym_cell('missing')})
+            if res.exc is not None:
+                inloop = getattr(ctx, 'in_iteration', None)
+                ctx.oblige('itervalues: only FieldSelectionError escapes, before the data', z3.BoolVal(inloop is None and res.exc.kind == 'FieldSelectionError'), res.exc.origin or '')
+                return
+            if getattr(ctx, 'after_loop', None):
+                ctx.oblige('itervalues: the header is not a value; nothing after the last row', z3.And(ctx.pre_loop_out.len == 0, res.out.len == 0))
+        h.explore(body)
+
+
+# ------------------------------------------------------------------------------------------------ addfields
+@vc('C12.iteraddfields', functions=[B + 'iteraddfields'], props=['C12', 'C03', 'C20', 'C02'],
+    assumptions=['two field definitions: (name, value) appended and (name, value, index) inserted; fixed (non-callable) values; any integer index',
+                 'stateless-body rule (engine meta-theorem)'])
+def iteraddfields(h):
+    def body(ctx):
+        def ins(f, ln, pos, v):
+            """closed form of list.insert on a sequence given as an index function"""
+            return lambda q: z3.If(q < pos, f(q), z3.If(q == pos, v, f(q - 1)))
+
+        def twice(base, blen, i1, v1, i2, v2):
+            p1 = clamp_ins(i1, blen)
+            f1 = ins(lambda q: z3.Select(base.arr, q), blen, p1, v1)
+            p2 = clamp_ins(i2, blen + 1)
+            return ins(f1, blen + 1, p2, v2)
+
+        def delta(ls, x, dout):
+            row = view_seq(x)
+            o = out_row(dout, 0)
+            q = smt.fresh_int('q')
+            f = twice(row, row.len, hl, v1.t, i2.t, v2.t)
+            ctx.oblige('iteraddfields: one output row per input row: the row with both new cells inserted (list.insert semantics), all other cells carried over in order',
+                       z3.And(dout.len == 1, o.len == row.len + 2, z3.ForAll([q], z3.Implies(z3.And(0 <= q, q < o.len), z3.Select(o.arr, q) == f(q)))))
+        it = h.interp(ctx, loops={(B + 'iteraddfields', 1): LoopSpec(delta=delta, label='data rows')})
+        S = sym_table(ctx, 'S', nmin=1)
+        hl = smt.seq_len(z3.Select(S.rows, 0))
+        n1, v1, n2, v2, i2 = sym_cell('n1'), sym_cell('v1'), sym_cell('n2'), sym_cell('v2'), sym_int('i2')
+        isc = z3.Function('is_callable', smt.V, z3.BoolSort())
+        ctx.assume(z3.And(z3.Not(isc(v1.t)), z3.Not(isc(v2.t))))
+        res = run_generator(it, closure_of(it, B + 'iteraddfields'), [S, PyList([(n1, v1), (n2, v2, i2)])])
+        if res.exc is not None:
+            ctx.oblige('iteraddfields: never raises', z3.BoolVal(False), res.exc.origin or '')
+            return
+        pre = ctx.pre_loop_out
+        hdr = src_row(S, 0)
+        o = out_row(pre, 0)
+        q = smt.fresh_int('q')
+        f = twice(hdr, hdr.len, hl, n1.t, i2.t, n2.t)
+        ctx.oblige('iteraddfields: header = source header with both names inserted the same way; nothing after the last row',
+                   z3.And(pre.len == 1, o.len == hdr.len + 2, res.out.len == 0, z3.ForAll([q], z3.Implies(z3.And(0 <= q, q < o.len), z3.Select(o.arr, q) == f(q)))))
+    h.explore(body)
